@@ -10,14 +10,27 @@ Import ListNotations.
 Open Scope string_scope.
 Open Scope list_scope.
 
-(** ** Pure computations *)
+(** ** Pure computations
+
+    A frame is pure when its remaining statements are SOther / return / for / range / if only, every range runs over a
+    name of [ranged] (data the skeleton does not follow: never bound to anything but [VAny]), no range declares a key
+    variable of that name, no loop variable is called "feature" and no condition is the one of line 39 (so that
+    [dpoint_of] of Pipe/Converse.v sees a free choice), and its environment binds the names of [ranged] to [VAny]. *)
+
+Definition ranged : list string := ["multiPolygon"; "newPolygonsPerTileMatrix"; "newPolygons"].
+
+Fixpoint mem_s (x : string) (l : list string) : bool :=
+  match l with [] => false | y :: r => String.eqb y x || mem_s x r end.
+
+Definition range_ok (kx vx over : string) : bool :=
+  mem_s over ranged && negb (mem_s kx ranged) && negb (String.eqb vx "feature").
 
 Fixpoint pure_stmt (s : stmt) : bool :=
   match s with
   | SOther _ | SReturn _ => true
-  | SFor _ _ _ b | SRange _ _ _ _ b => forallb pure_stmt b
-  | SIf _ a b => forallb pure_stmt a && forallb pure_stmt b
-  | SSwitchType _ cs => forallb (fun c => match c with (_, b) => forallb pure_stmt b end) cs
+  | SFor _ _ _ b => forallb pure_stmt b
+  | SRange _ kx vx over b => range_ok kx vx over && forallb pure_stmt b
+  | SIf cond a b => negb (String.eqb cond "len(newPolygons) == 0") && forallb pure_stmt a && forallb pure_stmt b
   | _ => false
   end.
 
@@ -27,11 +40,16 @@ Fixpoint pure_kont (k : kont) : bool :=
   | KSeq ss k' => forallb pure_stmt ss && pure_kont k'
   | KScope _ k' => pure_kont k'
   | KLoop _ _ => false
-  | KFor b k' | KRangeAny _ _ b k' | KRangeMap _ _ _ b k' => forallb pure_stmt b && pure_kont k'
+  | KFor b k' => forallb pure_stmt b && pure_kont k'
+  | KRangeAny kx vx b k' => negb (mem_s kx ranged) && negb (String.eqb vx "feature") && forallb pure_stmt b && pure_kont k'
+  | KRangeMap _ _ _ _ _ => false
   end.
 
+Definition pure_env (e : env) : bool :=
+  forallb (fun yv : string * val => if mem_s (fst yv) ranged then match snd yv with VAny => true | _ => false end else true) e.
+
 Definition pure_frame (fr : frame) : bool :=
-  match fr_defers fr with [] => pure_kont (fr_k fr) | _ => false end.
+  match fr_defers fr with [] => pure_kont (fr_k fr) && pure_env (fr_env fr) | _ => false end.
 
 (** ** Snapper = processFeatures *)
 
